@@ -119,9 +119,13 @@ impl GWorld {
         for j in &self.deps[i] {
             // the same file is spelled in different ways by different includers
             let sp = if self.file_dir.is_empty() {
-                match (i + j) % 3 {
+                // plain, through a directory and back, with `./`, through a symbolic link to the base directory,
+                // by absolute path (`@ABS@` is replaced by the base directory when the tree is written)
+                match (i + 2 * j) % 5 {
                     1 => format!("d/../{}", Self::out_name(*j)),
                     2 => format!("./{}", Self::out_name(*j)),
+                    3 => format!("lnk/{}", Self::out_name(*j)),
+                    4 => format!("@ABS@/{}", Self::out_name(*j)),
                     _ => Self::out_name(*j),
                 }
             } else {
@@ -181,7 +185,9 @@ impl GWorld {
         std::fs::create_dir_all(dir).unwrap();
         if self.file_dir.is_empty() {
             std::fs::create_dir_all(dir.join("d")).unwrap();
+            let _ = std::os::unix::fs::symlink(dir, dir.join("lnk"));
         }
+        let abs = dir.canonicalize().unwrap_or_else(|_| dir.to_path_buf()).to_string_lossy().to_string();
         for d in &self.dir_path {
             std::fs::create_dir_all(dir.join(d)).unwrap();
         }
@@ -191,7 +197,7 @@ impl GWorld {
         }
         for i in 0..self.n {
             let rel = self.file_rel(i);
-            std::fs::write(dir.join(&rel), self.source(i)).unwrap();
+            std::fs::write(dir.join(&rel), self.source(i).replace("@ABS@", &abs)).unwrap();
             if stale {
                 std::fs::write(dir.join(self.out_rel(i)), format!("head{i}\nSTALE\n")).unwrap();
             }
